@@ -40,7 +40,7 @@ ASSUMPTIONS = [
 NONVACUITY = ["vfs_compiled", "master_locations_judged", "points_compared", "advances_compared",
               "kerning_pairs_judged", "kerning_pairs_absent_in_some_master", "mark_pairs_judged",
               "variable_features_path", "merge_path", "ttf_vfs", "cff2_vfs", "axis_map_families",
-              "intermediate_master_families"]
+              "intermediate_master_families", "prefilter_cases", "prefilter_only_mark_pairs"]
 
 
 def n_cases(tier):
@@ -104,8 +104,45 @@ def gen(rng, idx, tier):
             varfea = False
     if kern == "ragged" and varfea and stratum == "default":
         stratum = "ragged_variable_features"
+    filters = None
+    if stratum == "default" and rng.random() < 0.08 and prefilter_anchors(rng, ds):
+        # anchors that exist only after a pre-filter ran (PropagateAnchors): the layout of the
+        # variable font must still match the master compiled alone with the same filter
+        stratum = "prefilter_anchors"
+        filters = ["PropagateAnchorsFilter"]
     return {"stratum": stratum, "ds": ds, "func": func, "variableFeatures": varfea,
-            "lib": rng.choice(["defcon", "ufoLib2"])}
+            "filters": filters, "lib": rng.choice(["defcon", "ufoLib2"])}
+
+
+def prefilter_anchors(rng, ds):
+    """Make one component-only glyph anchorless while its first base carries 'top' and some
+    other glyph carries '_top' in every master (coordinates differ per master)."""
+    base = ds["ufos"][0]["glyphs"]
+    names = {g["name"] for g in base}
+    comps = [g for g in base if g["components"] and not g["contours"]
+             and g["components"][0]["base"] in names and g["name"] != ".notdef"]
+    if not comps:
+        return False
+    target = rng.choice(comps)["name"]
+    first = next(g for g in base if g["name"] == target)["components"][0]["base"]
+    others = [n for n in sorted(names) if n not in (target, first, ".notdef")]
+    if not others:
+        return False
+    mark = rng.choice(others)
+    for ui, u in enumerate(ds["ufos"]):
+        tables = [u["glyphs"]] + list((u.get("layers") or {}).values())
+        for gl in tables:
+            for g in gl:
+                if g["name"] == target:
+                    g["anchors"] = []
+                elif g["name"] == first:
+                    g["anchors"] = [a for a in g["anchors"] if a["name"] != "top"] + [
+                        {"name": "top", "x": 210 + 17 * ui, "y": 640 + 9 * ui}]
+                elif g["name"] == mark:
+                    g["anchors"] = [a for a in g["anchors"] if a["name"] not in ("_top", "top")] + [
+                        {"name": "_top", "x": 30 + 5 * ui, "y": 600 - 4 * ui}]
+    ds.setdefault("meta", {})["prefilter"] = {"composite": target, "base": first, "mark": mark}
+    return True
 
 
 def sample_view(case):
@@ -150,9 +187,14 @@ def run(case):
     func = case["func"]
     is_tt = func == "compileVariableTTF"
     doc, fonts = build_designspace(ds, case["lib"])
+    fkw = {}
+    if case.get("filters"):
+        import ufo2ft.filters as F
+        fkw["filters"] = [...] + [getattr(F, n)(pre=True) for n in case["filters"]]
+        bump("prefilter_cases")
     try:
         vf_ = getattr(ufo2ft, func)(doc, variableFeatures=case["variableFeatures"],
-                                    useProductionNames=False)
+                                    useProductionNames=False, **fkw)
         buf = io.BytesIO()
         vf_.save(buf)
         vf_bytes = buf.getvalue()
@@ -171,9 +213,9 @@ def run(case):
     doc2, _ = build_designspace(ds, case["lib"])
     try:
         if is_tt:
-            res = ufo2ft.compileInterpolatableTTFsFromDS(doc2, useProductionNames=False)
+            res = ufo2ft.compileInterpolatableTTFsFromDS(doc2, useProductionNames=False, **fkw)
         else:
-            res = ufo2ft.compileInterpolatableOTFsFromDS(doc2, useProductionNames=False)
+            res = ufo2ft.compileInterpolatableOTFsFromDS(doc2, useProductionNames=False, **fkw)
         imasters = [s.font for s in res.sources]
     except Exception:  # noqa: BLE001
         return {"status": "inconclusive", "counters": dict(counters, interpolatable_failed=1)}
@@ -259,7 +301,11 @@ def judge_layout(case, ufo, inst, si, uloc, all_kern_keys, bump, tol=0):
     gi = Gpos(inst)
     # static compile of this master alone (same writers, non-variable path)
     try:
-        st = ufo2ft.compileTTF(build_ufo(ufo, case["lib"]), useProductionNames=False)
+        skw = {}
+        if case.get("filters"):
+            import ufo2ft.filters as F
+            skw["filters"] = [...] + [getattr(F, n)(pre=True) for n in case["filters"]]
+        st = ufo2ft.compileTTF(build_ufo(ufo, case["lib"]), useProductionNames=False, **skw)
         b = io.BytesIO()
         st.save(b)
         gs = Gpos(TTFont(io.BytesIO(b.getvalue())))
@@ -318,6 +364,11 @@ def judge_layout(case, ufo, inst, si, uloc, all_kern_keys, bump, tol=0):
                         mp = anchors[b_]["mark"][k]
                         cands.add((pt[0] - mp[0], pt[1] - mp[1]))
                 ms = gs.attach(a, b_, tag)
+                if case.get("filters") and not cands and ms["offset"] is not None:
+                    # the attachment exists only through the pre-filter: the master compiled
+                    # alone with the same filter is the reference
+                    cands = {tuple(ms["offset"])}
+                    bump("prefilter_only_mark_pairs")
                 if cands and ms["offset"] is not None and tuple(ms["offset"]) in cands:
                     mi = gi.attach(a, b_, tag)
                     bump("mark_pairs_judged")
@@ -349,6 +400,10 @@ def classify(v, case):
         tr = det.get("trace", "")
         if "varLib/merger.py" in tr and "GPOS" in tr:
             return "merge_path_fails_on_structurally_different_master_gpos"
+    if v["mech"] == "unexpected_exception" and case["variableFeatures"] and case.get("filters"):
+        tr = det.get("trace", "")
+        if "_getAnchor" in tr and "cannot unpack non-iterable NoneType" in tr:
+            return "variable_features_read_anchors_from_source_fonts"
     if v["mech"] == "unexpected_exception" and case["variableFeatures"]:
         tr = det.get("trace", "")
         if (("Base master not found" in tr or "Default value could not be found" in tr)
